@@ -2,6 +2,7 @@
 import hashlib
 import json
 import os
+import re
 import vlib
 
 META = {
@@ -45,6 +46,27 @@ def stream_hex(c):
     return c["dump"] if c["same"] else c["stream"]
 
 
+RUN = re.compile(rb"(.)\1{47,}", re.S)
+
+
+def rle_bytes(bs):
+    """Coq term for the byte string: a plain literal, or `unrle [...]` (DumpCheck.v) when it
+    has long runs of one byte (lossless; the size-class objects have low-entropy payloads)."""
+    if len(bs) < 256:
+        return vlib.coq_bytes(bs)
+    segs, pos = [], 0
+    for m in RUN.finditer(bs):
+        if m.start() > pos:
+            segs.append("Lit " + vlib.coq_bytes(bs[pos:m.start()]))
+        segs.append("Rep %d %d" % (m.end() - m.start(), bs[m.start()]))
+        pos = m.end()
+    if not segs:
+        return vlib.coq_bytes(bs)
+    if pos < len(bs):
+        segs.append("Lit " + vlib.coq_bytes(bs[pos:]))
+    return "(unrle [" + "; ".join(segs) + "])"
+
+
 def case_literal(c):
     """Bodies are given to Coq as slices of the dump / stream literal (parsing long
     literals is what costs time), plus `extra` byte strings found nowhere in them."""
@@ -70,10 +92,10 @@ def case_literal(c):
         else:
             extra.append(b)
             stored.append(ix((2, len(extra) - 1, 0)))
-    streaml = "None" if c["same"] else "(Some %s)" % vlib.coq_bytes(stream)
+    streaml = "None" if c["same"] else "(Some %s)" % rle_bytes(stream)
     return "(mkCase %s %s %s %s %d %d %s %s %s %s %s %d %d %d %s)" % (
-        vlib.coq_list(tbl, lambda e: "(%d, %d, %d)" % e), vlib.coq_list(extra, vlib.coq_bytes),
-        vlib.coq_list(dumprecs), vlib.coq_bytes(hx(c["dump"])), c["dump_count"], c["kind"],
+        vlib.coq_list(tbl, lambda e: "(%d, %d, %d)" % e), vlib.coq_list(extra, rle_bytes),
+        vlib.coq_list(dumprecs), rle_bytes(hx(c["dump"])), c["dump_count"], c["kind"],
         vlib.coq_list(recs), streaml, vlib.coq_list(c["sizes"]), vlib.coq_bool(c["ign"]),
         vlib.coq_list(oracle, lambda e: "(%d, %d, %d)" % (e[0], e[1], e[2])),
         c["count"], c["fail"], c["err"], vlib.coq_list(stored))
